@@ -177,7 +177,8 @@ def cmp_unwind(n, passes=2):
 LOOKUP_STUBS = ["a5::core::cell::lonlat_to_estimate ↦ any in-range estimate (nondeterministic)",
                 "a5::core::cell::a5cell_contains_point ↦ constant Ok(1.0) (first probe hits)"]
 LK = ["a5::core::cell::lonlat_to_cell", "a5::core::serialization::serialize"]
-COMPACT_STUBS = ["core::slice::sort::unstable::sort (back end of every sort_unstable* call) ↦ bounded insertion sort, ≤ 6 elements, same contract", "verif_set::HashSet in ASSUME_UNIQUE mode (inputs pairwise distinct)",
+PARENT_MODEL = "cell_to_parent ↦ contract model spec_parent1 on canonical cells (proved equal to the real function by oracle_parent_equiv in the same run)"
+COMPACT_STUBS = ["core::slice::sort::unstable::sort (back end of every sort_unstable* call) ↦ bounded insertion sort, ≤ 8 elements (asserted), same contract", "verif_set::HashSet in ASSUME_UNIQUE mode (inputs pairwise distinct)",
                  "get_resolution ↦ loop-free res_stub (proved equal on all 2^64 inputs by oracle_res_equiv)"]
 PROPERTIES["C14"] = dict(
     explanation="every root-exported integer-surface function on every u64 / i32 / Option<i32>: no panic, no arithmetic/shift overflow, no OOB, "
@@ -255,7 +256,7 @@ PROPERTIES["C17"] = dict(
     native_prepare=[dict(name="c17table", args=["c17table"], violation_on_fail=False)],
     harnesses=[
         c17h(1, [Q, T]), c17h(2, [Q, T]), c17h(3, [Q, T]), c17h(4, [Q, T]), c17h(5, [Q, T], 1800), c17h(6, [T], 2400),
-    ] + [c17one(7, o, [T]) for o in OR6] + [c17one(8, o, [T], 3600) for o in OR6] + [
+    ] + [c17one(7, o, [T]) for o in OR6] + [c17one(8, o, [T], 3600) for o in OR6] + [c17one(9, o, [T], 7200) for o in OR6] + [
         H("c17_seq_n2", "c17", [Q, T], "as c17_n2, after s_to_anchor/ij_to_s were just used for an arbitrary other (position, orientation): results do not depend on the previous call",
           functions=HIL, bounds="n=2, two-call sequences", cfgs=["verif_c17"], timeout=1500, mem_gb=8),
         H("c17_seq_n3", "c17", [T], "as c17_seq_n2 at depth 3", functions=HIL, bounds="n=3, two-call sequences", cfgs=["verif_c17"], timeout=2400, mem_gb=8),
@@ -371,14 +372,23 @@ PROPERTIES["C08"] = dict(
     trusted_base=["std HashSet is a set and sort_unstable sorts (order/multiplicity beyond N=2 rests on them)", "bit-level oracles proved equal to the real code in the same run"],
     outside_claim=["N above the bound (quick 3, thorough 5)", "order/multiplicity independence beyond N=2 (std trusted)", "cascades deeper than the pass bound"],
     harnesses=[oracle("oracle_res_equiv"), oracle("oracle_valid_equiv"), oracle("oracle_covers_equiv"),
-               c08c(2, [Q, T], 1200, 12, 4), c08c(3, [Q, T], 2400, 24, 12), c08c(4, [T], 5400, 40, 16), c08c(5, [T], 7200, 45, 20),
+               H("oracle_child_equiv", "oracles", [Q, T], "∀ valid cell(1..28), k<4: spec_child(id,k) = serialize(child k)", functions=SER, bounds="none", exhaustive=True),
+               c08c(2, [T], 1200, 12, 4), c08c(3, [Q, T], 2400, 24, 12), c08c(4, [T], 5400, 40, 16),
                H("c08_group4_merges", "c08", [Q, T], "∀ valid parent p (r 1..28): compact(its 4 children) = [p]", functions=CMP, bounds="N=4 built from one symbolic parent; passes ≤ 2", unwindset=cmp_unwind(4), assumes=COMPACT_STUBS, timeout=2400, mem_gb=24, mem_est=10),
+    ] + [
+               H(f"c08_cover_{n}m", "c08", tiers, f"as c08_cover_N with N={n} and cell_to_parent replaced by its proved contract model", functions=CMP[:4], bounds=f"N={n} cells; passes ≤ {ps}", unwindset=cmp_unwind(n, ps),
+                 assumes=[SORTED] + COMPACT_STUBS + [PARENT_MODEL], deps=CDEPS + ["oracle_parent_equiv"], timeout=to, mem_gb=mem, mem_est=est)
+               for n, tiers, ps, to, mem, est in [(4, [Q, T], 2, 2400, 16, 6), (5, [T], 2, 5400, 30, 10), (6, [T], 2, 9000, 36, 12)]
+    ] + [
+               H("oracle_parent_equiv", "oracles", [Q, T], "∀ canonical x of resolution ≥ 0: cell_to_parent(x, None) = spec_parent1(x)", functions=HIER[:-1], bounds="none", exhaustive=True),
+               H("c08_near_group4", "c08", [Q, T], "∀ parent p (r 1..28), ∀ missing child k, ∀ valid cell x: compact({3 children of p, x}) preserves coverage; merged to [p] iff x is the missing child; otherwise 4 cells remain (no false merge)",
+                 functions=CMP, bounds="N=4: 3 siblings from one symbolic parent + 1 arbitrary cell, unsorted", unwindset=cmp_unwind(4), assumes=COMPACT_STUBS + [PARENT_MODEL], deps=CDEPS + ["oracle_child_equiv", "oracle_parent_equiv"], timeout=2400, mem_gb=16, mem_est=6),
                H("c08_prelude_swap", "c08", [Q, T], "∀ two arbitrary valid cells (unsorted, possibly equal): compact([a,b]) = compact([b,a]), sorted, deduplicated",
-                 functions=CMP, bounds="N=2", unwindset=cmp_unwind(2, 1), assumes=["real set membership test (ASSUME_UNIQUE off)", COMPACT_STUBS[0], COMPACT_STUBS[2]], timeout=2400, mem_gb=30, mem_est=14),
+                 functions=CMP[:4], bounds="N=2", unwindset=cmp_unwind(2, 1), assumes=["real set membership test (ASSUME_UNIQUE off)", "sort back end ↦ bounded insertion sort (≤ 4, asserted)", COMPACT_STUBS[2], PARENT_MODEL], deps=["oracle_parent_equiv"], timeout=1500, mem_gb=12, mem_est=4),
                H("c08_prelude_dup", "c08", [T], "∀ two arbitrary valid cells: compact([a,a,b]) = compact([a,b,a]) = compact([a,b])",
-                 functions=CMP, bounds="N=3 with one duplicate", unwindset=cmp_unwind(3, 1), assumes=["real set membership test (ASSUME_UNIQUE off)", COMPACT_STUBS[0], COMPACT_STUBS[2]], timeout=3600, mem_gb=40, mem_est=28),
-               H("c08_unsorted_4", "c08", [T], "input strictly decreasing: coverage preserved and 4 siblings still merge (detects a dropped/misplaced sort)", functions=CMP, bounds="N=4", unwindset=cmp_unwind(4),
-                 assumes=COMPACT_STUBS, timeout=5400, mem_gb=40, mem_est=16),
+                 functions=CMP[:4], bounds="N=3 with one duplicate", unwindset=cmp_unwind(3, 1), assumes=["real set membership test (ASSUME_UNIQUE off)", "sort back end ↦ bounded insertion sort (≤ 4, asserted)", COMPACT_STUBS[2], PARENT_MODEL], deps=["oracle_parent_equiv"], timeout=3600, mem_gb=36, mem_est=24),
+               H("c08_unsorted_4", "c08", [Q, T], "input strictly decreasing: coverage preserved and 4 siblings still merge (detects a dropped/misplaced sort)", functions=CMP[:4], bounds="N=4", unwindset=cmp_unwind(4),
+                 assumes=COMPACT_STUBS + [PARENT_MODEL], deps=["oracle_parent_equiv"], timeout=2400, mem_gb=16, mem_est=6),
                ],
 )
 MANIFEST_TEXT["C08"] = dict(
@@ -393,11 +403,22 @@ PROPERTIES["C09"] = dict(
     explanation="uncompact = per-input cell_to_children in input order, right length, Err (nothing returned) iff some input is finer than the target; descendant-set facts then follow from C07's children harnesses",
     assumptions=[VALID, FMT_STUB],
     trusted_base=[],
-    outside_claim=["lists longer than 2", "fan-out > 12 per input", "d ≥ 2 levels in one call (follows by C07 composition, not executed)"],
+    outside_claim=["lists longer than 3; lists mixing fan-outs beyond c09_pair_d1", "fan-out > 12 per input", "d ≥ 2 levels in one call (follows by C07 composition, not executed)"],
     harnesses=[
         oracle("oracle_res_equiv"), oracle("oracle_valid_equiv"),
-        H("c09_single_flat", "c09", [Q, T], "∀ valid cell(−1..29) c, ∀ t∈−1..res c: uncompact([c],t) = [c] iff t=res c, else Err", functions=UNC, bounds="one input; fan-out 1 (loops 1×1×1)", unwindset=ch_unwind(1, 1, 1), assumes=[VALID, "get_resolution ↦ res_stub"], deps=["oracle_res_equiv"], timeout=1500, mem_gb=16),
-        H("c09_pair_flat", "c09", [T], "∀ valid a,b, ∀ t ≤ min res: Ok([a,b]) in input order iff t=res a=res b; Err iff either is finer", functions=UNC, bounds="two inputs; fan-out 1 (loops 1×1×1)", unwindset=ch_unwind(1, 1, 1), assumes=[VALID, "get_resolution ↦ res_stub"], deps=["oracle_res_equiv"], timeout=3600, mem_gb=45, mem_est=30),
+        H("c09_single_flat", "c09", [Q, T], "∀ valid cell(−1..29) c, ∀ t∈−1..res c: uncompact([c],t) = [c] iff t=res c, else Err", functions=UNC, bounds="one input; fan-out 1 (expansion loops cut: unreachable in this class, unwinding assertions on)", unwindset=ch_unwind(0, 0, 0), assumes=[VALID, "get_resolution ↦ res_stub"], deps=["oracle_res_equiv"], timeout=1500, mem_gb=16),
+        H("c09_children_same", "c09", [Q, T], "∀ valid cell(−1..29): cell_to_children(c, Some(res c)) = [c] — the callee contract used by c09_list3_flat", functions=["a5::core::serialization::cell_to_children"] + SER,
+          bounds="none on c; expansion loops cut (unreachable for a same-resolution call)", unwindset=ch_unwind(0, 0, 0), assumes=[VALID, "get_resolution ↦ res_stub"], deps=["oracle_res_equiv"], timeout=1500, mem_gb=16),
+        H("c09_list3_flat", "c09", [Q, T], "∀ three valid cells, ∀ t ≤ every resolution: Ok([a,b,c]) in input order iff all are at t; Err iff any one (first, middle or last) is finer", functions=["a5::core::compact::uncompact (real)", "a5::core::cell_info::get_num_children"],
+          bounds="list length 3; fan-out 1 per input", assumes=[VALID, "get_resolution ↦ res_stub", "cell_to_children ↦ contract model for the same-resolution call (proved on the real function by c09_children_same in the same run)"],
+          deps=["oracle_res_equiv", "oracle_valid_equiv", "c09_children_same"], timeout=1800, mem_gb=24, mem_est=10),
+        H("c09_list3_mixed", "c09", [Q, T], "∀ three valid cells each at t, at t−1 (res ≥ 1) or finer, ∀ t ∈ 2..29: Ok iff none is finer; output = concatenation of the per-input expansions in input order, length = sum of fan-outs (1 / 4)",
+          functions=["a5::core::compact::uncompact (real)", "a5::core::cell_info::get_num_children"], bounds="list length 3; fan-out 1 or 4 per input",
+          assumes=[VALID, "get_resolution ↦ res_stub", "cell_to_children ↦ contract model (same resolution: [x]; one level down: the four spec_child IDs) — proved on the real function by c09_children_same and c07_children_d1"],
+          deps=["oracle_res_equiv", "oracle_valid_equiv", "oracle_child_equiv", "c09_children_same", "c07_children_d1"], timeout=2400, mem_gb=30, mem_est=14),
+        H("c07_children_d1", "c07", [Q, T], "∀ valid cell(1..28): children(c,r+1)[i] = spec_child(c,i): 4 entries, distinct, increasing, resolution r+1, parent=c, canonical (callee contract for c09_list3_mixed)",
+          functions=HIER, bounds="fan-out 4; loops 1×1×4 (unwinding assertions on)", unwindset=ch_unwind(1, 1, 4), assumes=[VALID], deps=["oracle_valid_equiv"], timeout=1500, mem_gb=24),
+        H("oracle_child_equiv", "oracles", [Q, T], "∀ valid cell(1..28), k<4: spec_child(id,k) = serialize(child k)", functions=SER, bounds="none", exhaustive=True),
         H("c07_fanout", "c07", [Q, T], "pre-count formula: get_num_children = ∏ apertures", functions=["a5::core::cell_info::get_num_children"], bounds="c−p ≤ 8"),
         H("c09_world", "c09", [Q, T], "uncompact([world],0) = the 12 base cells in face order, each canonical of resolution 0", functions=UNC,
           bounds="concrete input; fan-out 12 fully unwound", timeout=1500, mem_gb=16, assumes=["get_resolution ↦ res_stub"], deps=["oracle_res_equiv", "oracle_valid_equiv"]),
@@ -405,8 +426,6 @@ PROPERTIES["C09"] = dict(
           bounds="fan-out 5; loops 1×5×1", unwindset=ch_unwind(1, 5, 1), timeout=3600, mem_gb=40, mem_est=24, assumes=["get_resolution ↦ res_stub"], deps=["oracle_res_equiv", "oracle_valid_equiv"]),
         H("c09_single_d1", "c09", [T], "∀ valid cell(1..28): uncompact([c],r+1) = cell_to_children(c,r+1) element-wise, 4 = get_num_children, each child of c; uncompact([c],r−1) Err",
           functions=UNC, bounds="one input; fan-out 4", unwindset=ch_unwind(1, 1, 4), timeout=5400, mem_gb=45, mem_est=28, assumes=[VALID, "get_resolution ↦ res_stub"], deps=["oracle_res_equiv"]),
-        H("c09_pair_d1", "c09", [T], "a at r then b at r+1 (both orders), target r+1: 5 outputs concatenated in input order", functions=UNC, bounds="two inputs; fan-out 4+1",
-          unwindset=ch_unwind(1, 1, 4), timeout=5400, mem_gb=45, mem_est=28, assumes=[VALID, "get_resolution ↦ res_stub"], deps=["oracle_res_equiv"]),
     ],
 )
 MANIFEST_TEXT["C09"] = dict(
@@ -427,12 +446,15 @@ PROPERTIES["C10"] = dict(
                H("c10_max_4", "c10", [Q, T], "∀ non-overlapping strictly increasing 4-tuple, ∀ valid parent p: output never contains all children of p", functions=CMP, bounds="N=4", unwindset=cmp_unwind(4), assumes=COMPACT_STUBS, deps=CDEPS, timeout=5400, mem_gb=40, mem_est=16),
                H("c10_lowres_fg", "c10", [T], "∀ faces f≠g: compact({5 quintants of f, base cell of g}) = {base f, base g}, numerically sorted (the interleaving class)", functions=CMP, bounds="6 cells built from two symbolic faces",
                  unwindset=cmp_unwind(6), assumes=COMPACT_STUBS[1:], timeout=5400, mem_gb=45, mem_est=30),
-               H("c10_max_5_hi", "c10", [T], "same, N=5, resolutions ≥ 2", functions=CMP, bounds="N=5, r≥2", unwindset=cmp_unwind(5), assumes=COMPACT_STUBS, deps=CDEPS, timeout=7200, mem_gb=45, mem_est=24),
-               H("c10_max_5", "c10", [T], "same, N=5, all resolutions 0..29 (includes 5 quintants of one face)", functions=CMP, bounds="N=5", unwindset=cmp_unwind(5), assumes=COMPACT_STUBS, deps=CDEPS, timeout=7200, mem_gb=45, mem_est=24),
-               H("c10_idem_4_hi", "c10", [T], "∀ non-overlapping 4-tuple at r≥2: result sorted; compact(compact(x)) = compact(x) as vectors", functions=CMP, bounds="N=4, r≥2", unwindset=cmp_unwind(4), assumes=COMPACT_STUBS, timeout=7200, mem_gb=45, mem_est=24),
-               H("c10_idem_4", "c10", [T], "same, all resolutions", functions=CMP, bounds="N=4", unwindset=cmp_unwind(4), assumes=COMPACT_STUBS, timeout=7200, mem_gb=45, mem_est=24),
+               H("oracle_parent_equiv", "oracles", [Q, T], "∀ canonical x of resolution ≥ 0: cell_to_parent(x, None) = spec_parent1(x)", functions=HIER[:-1], bounds="none", exhaustive=True),
+    ] + [
+               H(f"c10_max_{n}m", "c10", tiers, f"∀ non-overlapping set of {n} distinct valid cells (any resolutions 0..29), ∀ valid parent p: output never contains all children of p (cell_to_parent ↦ proved contract model)", functions=CMP[:4],
+                 bounds=f"N={n}; passes ≤ {ps}", unwindset=cmp_unwind(n, ps), assumes=COMPACT_STUBS + [PARENT_MODEL], deps=CDEPS + ["oracle_parent_equiv"], timeout=to, mem_gb=mem, mem_est=est)
+               for n, tiers, ps, to, mem, est in [(4, [T], 2, 3600, 16, 6), (5, [Q, T], 2, 5400, 24, 10), (6, [T], 2, 7200, 30, 12), (7, [T], 3, 18000, 40, 20)]
+    ] + [
+               H("c10_split_2m", "c10", [T], "∀ non-overlapping pair, ∀ i: replacing x[i] by its 4 children gives the same compacted vector (parent model)", functions=CMP[:4], bounds="2 → 5 cells", unwindset=cmp_unwind(5), assumes=COMPACT_STUBS + [PARENT_MODEL], deps=["oracle_child_equiv", "oracle_parent_equiv"], timeout=7200, mem_gb=45, mem_est=16),
+                              H("c10_max_5_hi", "c10", [T], "N=5, resolutions ≥ 2, real cell_to_parent (integration of the modelled callee)", functions=CMP, bounds="N=5, r≥2", unwindset=cmp_unwind(5), assumes=COMPACT_STUBS, deps=CDEPS, timeout=7200, mem_gb=45, mem_est=26),
                H("c10_split_1", "c10", [Q, T], "∀ valid x (r 1..28): compact(children of x) = compact([x])", functions=CMP, bounds="1 → 4 cells", unwindset=cmp_unwind(4), assumes=COMPACT_STUBS, deps=["oracle_child_equiv"], timeout=3600, mem_gb=30, mem_est=12),
-               H("c10_split_2", "c10", [T], "∀ non-overlapping pair, ∀ i: replacing x[i] by its 4 children gives the same compacted vector", functions=CMP, bounds="2 → 5 cells", unwindset=cmp_unwind(5), assumes=COMPACT_STUBS, deps=["oracle_child_equiv"], timeout=7200, mem_gb=45, mem_est=24),
                ],
 )
 MANIFEST_TEXT["C10"] = dict(
